@@ -173,3 +173,41 @@ package mat
 //@ modifies v
 //@ ensures forall(i, 0, old(unbox(a, *VecDense).mat.N), same(v.mat.Data[i*v.mat.Inc],
 //@     old(unbox(a, *VecDense).mat.Data[i*unbox(a, *VecDense).mat.Inc]) / old(unbox(b, *VecDense).mat.Data[i*unbox(b, *VecDense).mat.Inc])))
+
+// ---- binary decoding (C16) -------------------------------------------------------
+
+// The header fields read from the input are arbitrary (adversarial bytes). On a
+// nil error the decoded matrix is well formed and Rows*Cols == len(Data) as
+// mathematical integers; no input makes the decoder fault. headerSize and
+// sizeFloat64 are package variables initialised from encoding/binary.Size.
+
+//@ func Dense.UnmarshalBinary props: C16
+//@ overflow: checked
+//@ requires wfDense(m) && headerSize == 40 && sizeFloat64 == 8
+//@ option may-panic
+//@ modifies m
+//@ ensures result == nil ==> wfDense(m) && m.mat.Rows > 0 && m.mat.Cols > 0 && m.mat.Rows*m.mat.Cols == len(m.mat.Data) && len(data) == 40+8*m.mat.Rows*m.mat.Cols
+
+//@ func VecDense.UnmarshalBinary props: C16
+//@ overflow: checked
+//@ requires wfVD(v) && headerSize == 40 && sizeFloat64 == 8
+//@ option may-panic
+//@ modifies v
+//@ ensures result == nil ==> wfVD(v) && v.mat.N > 0 && v.mat.N == len(v.mat.Data) && len(data) == 40+8*v.mat.N
+
+//@ func Dense.UnmarshalBinaryFrom props: C16
+//@ overflow: checked
+//@ requires wfDense(m) && headerSize == 40 && sizeFloat64 == 8
+//@ option may-panic
+//@ modifies m
+//@ ensures result1 == nil ==> wfDense(m) && m.mat.Rows > 0 && m.mat.Cols > 0 && m.mat.Rows*m.mat.Cols == len(m.mat.Data)
+//@ loop 1: invariant n <= 40+8*it && n >= 0
+
+//@ func VecDense.UnmarshalBinaryFrom props: C16
+//@ overflow: checked
+//@ option dead-return-ok
+//@ requires wfVD(v) && headerSize == 40 && sizeFloat64 == 8
+//@ option may-panic
+//@ modifies v
+//@ ensures result1 == nil ==> wfVD(v) && v.mat.N > 0 && v.mat.N == len(v.mat.Data)
+//@ loop 1: invariant n <= 40+8*it && n >= 0
